@@ -34,7 +34,7 @@ std::string run_exec(const Cmd& c){
     const double scale = 16.0 * double(1L << (H-1));
     std::vector<std::array<double, D>> pos(N);
     for(long i = 0 ; i < N ; ++i) for(long k = 0 ; k < D ; ++k) pos[i][k] = double(c.L(a++)) / scale;
-    Tree tree(conf, pos, B, mode != 0);
+    Tree tree(conf, pos, B < 0 ? -1 : B, mode != 0);
     if(c.tok[0] == "execrb") tree.rebuild();     // same run on a rebuilt tree (nothing moved)
     tag_cells(tree);
     TraceSink sink; trace_sink() = &sink;
@@ -73,7 +73,7 @@ std::string run_exec_cnt(const Cmd& c){
     const double scale = 16.0 * double(1L << (H-1));
     std::vector<std::array<double, D>> pos(N);
     for(long i = 0 ; i < N ; ++i) for(long k = 0 ; k < D ; ++k) pos[i][k] = double(c.L(a++)) / scale;
-    Tree tree(conf, pos, B, mode != 0);
+    Tree tree(conf, pos, B < 0 ? -1 : B, mode != 0);
     tag_cells(tree);
     TraceSink sink; trace_sink() = &sink;
     std::string out = dump(tree);
@@ -124,7 +124,7 @@ std::string run_exec_per(const Cmd& c){
     const double scale = 16.0 * double(1L << (H-1));
     std::vector<std::array<double, D>> pos(N);
     for(long i = 0 ; i < N ; ++i) for(long j = 0 ; j < D ; ++j) pos[i][j] = double(c.L(a++)) / scale;
-    Tree tree(conf, pos, B, mode != 0);
+    Tree tree(conf, pos, B < 0 ? -1 : B, mode != 0);
     tag_cells(tree);
     TraceSink sink; trace_sink() = &sink;
     sink.shiftAware = true; sink.topK = k; sink.leafLevel = H - 1;
@@ -167,7 +167,7 @@ std::string run_exec_per_tsm(const Cmd& c){
     const long Nt = c.L(a++);
     std::vector<std::array<double, D>> pt(Nt);
     for(long i = 0 ; i < Nt ; ++i) for(long j = 0 ; j < D ; ++j) pt[i][j] = double(c.L(a++)) / scale;
-    Tree tree(conf, ps, pt, B, mode != 0);
+    Tree tree(conf, ps, pt, B < 0 ? -1 : B, mode != 0);
     tree.applyToAllCellsSource([](long level, auto&& h, auto&& m, auto&&){ if(m){ m->get().tagLevel1 = level + 1; m->get().tagIndex = h.spaceIndex; } });
     tree.applyToAllCellsTarget([](long level, auto&& h, auto&&, auto&& l){ if(l){ l->get().tagLevel1 = level + 1; l->get().tagIndex = h.spaceIndex; } });
     TraceSink sink; trace_sink() = &sink;
@@ -220,7 +220,7 @@ std::string run_exec_tsm(const Cmd& c){
     const long Nt = c.L(a++);
     std::vector<std::array<double, D>> pt(Nt);
     for(long i = 0 ; i < Nt ; ++i) for(long k = 0 ; k < D ; ++k) pt[i][k] = double(c.L(a++)) / scale;
-    Tree tree(conf, ps, pt, B, mode != 0);
+    Tree tree(conf, ps, pt, B < 0 ? -1 : B, mode != 0);
     tree.applyToAllCellsSource([](long level, auto&& h, auto&& m, auto&&){ if(m){ m->get().tagLevel1 = level + 1; m->get().tagIndex = h.spaceIndex; } });
     tree.applyToAllCellsTarget([](long level, auto&& h, auto&&, auto&& l){ if(l){ l->get().tagLevel1 = level + 1; l->get().tagIndex = h.spaceIndex; } });
     TraceSink sink; trace_sink() = &sink;
